@@ -35,14 +35,16 @@ def confirm(src, sid, prop):
         r = sh(["git", "-C", REPO, "worktree", "add", "-q", wt, "HEAD"])
         assert r.returncode == 0, r.stdout
         # demo against the unmodified tree
-        r = sh(["g++", "-std=c++17", "-O1", "-I" + wt + "/inc", os.path.join(d, "demo.cpp"), "-o", wt + "/demo_orig", "-pthread"])
+        flags = os.environ.get("DEMO_FLAGS", "").split()
+        meta["demo_flags"] = flags
+        r = sh(["g++", "-std=c++17", "-O1"] + flags + ["-I" + wt + "/inc", os.path.join(d, "demo.cpp"), "-o", wt + "/demo_orig", "-pthread"])
         assert r.returncode == 0, r.stdout[-2000:]
         r0 = sh([wt + "/demo_orig"], timeout=600)
         meta["confirmed"]["demo_without_change"] = {"exit": r0.returncode, "tail": r0.stdout[-300:]}
         r = sh(["git", "-C", wt, "apply", os.path.join(d, "patch.diff")])
         meta["confirmed"]["patch_applies"] = r.returncode == 0
         assert r.returncode == 0, r.stdout
-        r = sh(["g++", "-std=c++17", "-O1", "-I" + wt + "/inc", os.path.join(d, "demo.cpp"), "-o", wt + "/demo_mut", "-pthread"])
+        r = sh(["g++", "-std=c++17", "-O1"] + flags + ["-I" + wt + "/inc", os.path.join(d, "demo.cpp"), "-o", wt + "/demo_mut", "-pthread"])
         assert r.returncode == 0, r.stdout[-2000:]
         r1 = sh([wt + "/demo_mut"], timeout=600)
         meta["confirmed"]["demo_with_change"] = {"exit": r1.returncode, "tail": r1.stdout[-300:]}
